@@ -5,7 +5,7 @@ from simkit.gen_hier import ScriptGen
 from simkit import corpus, textgen_eblif
 from simkit.model import scan
 from simkit.oracles.links import check_links
-from simkit.oracles.mirror import check_mirror, check_self_contained
+from simkit.oracles.mirror import check_mirror, check_self_contained, check_wire_endpoints
 from simkit.violation import Violation
 from simkit.world import kind_of
 
@@ -127,6 +127,7 @@ class C18(Prop):
             check_links(objs, src, w.name_of, P="C18.wellformed")
             check_mirror(objs, src, w.name_of, P="C18.wellformed")
             check_self_contained(n, objs, src, w.name_of, "C18.wellformed")
+            check_wire_endpoints(n, src, w.name_of, P="C18.wellformed")
             if self.design:
                 self.compare_model(w, n)
             self.first = extract(n, by="name")
